@@ -32,6 +32,14 @@ def deliver(x, a, ln, mem):
     """The chunk object handed to compute_chunk for samples [a, a+ln)."""
     if mem == "copy":
         return x[a : a + ln].copy()
+    if mem == "strided":
+        # a non-contiguous read-only view holding the same samples (e.g. one channel of an interleaved buffer)
+        y = np.empty(2 * ln, dtype=x.dtype)
+        y[0::2] = x[a : a + ln]
+        y[1::2] = 7.5
+        v = y[0::2]
+        v.flags.writeable = False
+        return v
     v = x[a : a + ln]
     v.flags.writeable = False
     return v
@@ -117,4 +125,5 @@ def gen_deliveries(rng, n, L, S, block, max_deliveries=64):
     if n == 0 and rng.random() < 0.5:
         out = [0] * rng.randrange(0, 3)
     pm = rng.choice((0.0, 0.5, 1.0))
-    return [[int(k), "copy" if rng.random() < pm else "ro"] for k in out]
+    ps = rng.choice((0.0, 0.0, 0.3))
+    return [[int(k), "strided" if rng.random() < ps else ("copy" if rng.random() < pm else "ro")] for k in out]
